@@ -31,14 +31,19 @@ var decKnownText string
 type decNormaliser struct {
 	fset    *token.FileSet
 	helpers map[string]*ast.FuncDecl
+	all     map[string][]*ast.FuncDecl // every function / method of the package, by name
 }
 
 func newDecNormaliser(fset *token.FileSet, repo string) *decNormaliser {
+	return newDecNormaliserAliased(fset, repo, nil)
+}
+
+func newDecNormaliserAliased(fset *token.FileSet, repo string, alias map[string]string) *decNormaliser {
 	known := map[string]bool{}
 	for _, n := range strings.Fields(decKnownText) {
 		known[n] = true
 	}
-	nz := &decNormaliser{fset: fset, helpers: map[string]*ast.FuncDecl{}}
+	nz := &decNormaliser{fset: fset, helpers: map[string]*ast.FuncDecl{}, all: map[string][]*ast.FuncDecl{}}
 	files, _ := filepath.Glob(filepath.Join(repo, "*.go"))
 	for _, f := range files {
 		if strings.HasSuffix(f, "_test.go") {
@@ -48,9 +53,13 @@ func newDecNormaliser(fset *token.FileSet, repo string) *decNormaliser {
 		if err != nil {
 			continue
 		}
+		decApplyAliases(af, alias)
 		for _, d := range af.Decls {
-			if fd, ok := d.(*ast.FuncDecl); ok && fd.Body != nil && !known[fd.Name.Name] {
-				nz.helpers[fd.Name.Name] = fd
+			if fd, ok := d.(*ast.FuncDecl); ok && fd.Body != nil {
+				nz.all[fd.Name.Name] = append(nz.all[fd.Name.Name], fd)
+				if !known[fd.Name.Name] {
+					nz.helpers[fd.Name.Name] = fd
+				}
 			}
 		}
 	}
@@ -469,6 +478,145 @@ func (nz *decNormaliser) foldLocals(body *ast.BlockStmt) bool {
 	return changed
 }
 
+// relabelBreaks turns the unlabelled `break`s of an if-arm (they leave the enclosing loop) into `break loop`, so that
+// they keep that meaning inside a switch clause.
+func decRelabelBreaks(n ast.Node) {
+	ast.Inspect(n, func(m ast.Node) bool {
+		switch x := m.(type) {
+		case *ast.ForStmt, *ast.RangeStmt, *ast.SwitchStmt, *ast.TypeSwitchStmt, *ast.SelectStmt, *ast.FuncLit:
+			return false
+		case *ast.BranchStmt:
+			if x.Tok == token.BREAK && x.Label == nil {
+				x.Label = ast.NewIdent("loop")
+			}
+		}
+		return true
+	})
+}
+
+// canonIf: N7 / N8.  An if / else-if chain (no init statements) with at least two conditions is written as a tagless
+// switch; a tagless switch with one case and a default as if / else; `if a != b {X} else {Y}` and `if !c {X} else {Y}`
+// as `if a == b {Y} else {X}` / `if c {Y} else {X}`.
+func (nz *decNormaliser) canonIf(body *ast.BlockStmt, chains, swaps bool) {
+	var conv func(s ast.Stmt) ast.Stmt
+	conv = func(s ast.Stmt) ast.Stmt {
+		switch x := s.(type) {
+		case *ast.IfStmt:
+			type arm struct {
+				cond ast.Expr
+				body *ast.BlockStmt
+			}
+			var arms []arm
+			var els *ast.BlockStmt
+			ok := true
+			cur := x
+			for {
+				if cur.Init != nil {
+					ok = false
+					break
+				}
+				arms = append(arms, arm{cur.Cond, cur.Body})
+				if cur.Else == nil {
+					break
+				}
+				if next, isIf := cur.Else.(*ast.IfStmt); isIf {
+					cur = next
+					continue
+				}
+				els, _ = cur.Else.(*ast.BlockStmt)
+				break
+			}
+			if !ok {
+				return s
+			}
+			if len(arms) >= 2 && chains {
+				sw := &ast.SwitchStmt{Body: &ast.BlockStmt{}}
+				for _, a := range arms {
+					decRelabelBreaks(a.body)
+					sw.Body.List = append(sw.Body.List, &ast.CaseClause{List: []ast.Expr{a.cond}, Body: a.body.List})
+				}
+				if els != nil {
+					decRelabelBreaks(els)
+					sw.Body.List = append(sw.Body.List, &ast.CaseClause{Body: els.List})
+				}
+				return sw
+			}
+			if els != nil && swaps && len(arms) == 1 {
+				if b, isBin := x.Cond.(*ast.BinaryExpr); isBin && b.Op == token.NEQ {
+					return &ast.IfStmt{Cond: &ast.BinaryExpr{X: b.X, Op: token.EQL, Y: b.Y}, Body: els, Else: x.Body}
+				}
+				if u, isNot := x.Cond.(*ast.UnaryExpr); isNot && u.Op == token.NOT {
+					c := u.X
+					if p, isPar := c.(*ast.ParenExpr); isPar {
+						c = p.X
+					}
+					return &ast.IfStmt{Cond: c, Body: els, Else: x.Body}
+				}
+			}
+		case *ast.SwitchStmt:
+			if chains && x.Tag == nil && x.Init == nil && len(x.Body.List) == 2 {
+				c0, _ := x.Body.List[0].(*ast.CaseClause)
+				c1, _ := x.Body.List[1].(*ast.CaseClause)
+				if c0 != nil && c1 != nil && len(c0.List) == 1 && c1.List == nil {
+					return conv(&ast.IfStmt{Cond: c0.List[0], Body: &ast.BlockStmt{List: c0.Body}, Else: &ast.BlockStmt{List: c1.Body}})
+				}
+			}
+		}
+		return s
+	}
+	decRewriteLists(body, func(l []ast.Stmt) []ast.Stmt {
+		for i, s := range l {
+			l[i] = conv(s)
+		}
+		return l
+	})
+}
+
+// decTerminates: the statement list always leaves (return, continue, break, goto, panic).
+func decTerminates(l []ast.Stmt) bool {
+	if len(l) == 0 {
+		return false
+	}
+	switch x := l[len(l)-1].(type) {
+	case *ast.ReturnStmt:
+		return true
+	case *ast.BranchStmt:
+		return x.Tok != token.FALLTHROUGH
+	case *ast.ExprStmt:
+		if c, ok := x.X.(*ast.CallExpr); ok {
+			if id, ok := c.Fun.(*ast.Ident); ok && id.Name == "panic" {
+				return true
+			}
+		}
+	}
+	return false
+}
+
+// dropElse: N9.  `if c { …; return } else { B }` is written `if c { …; return }; B` (guard clause form).
+func (nz *decNormaliser) dropElse(body *ast.BlockStmt) bool {
+	changed := false
+	decRewriteLists(body, func(l []ast.Stmt) []ast.Stmt {
+		var out []ast.Stmt
+		for _, s := range l {
+			if is, ok := s.(*ast.IfStmt); ok && is.Else != nil && decTerminates(is.Body.List) {
+				els := is.Else
+				is.Else = nil
+				out = append(out, is)
+				if blk, ok := els.(*ast.BlockStmt); ok {
+					out = append(out, blk.List...)
+				} else {
+					out = append(out, els)
+				}
+				changed = true
+				continue
+			}
+			out = append(out, s)
+		}
+		return out
+	})
+	return changed
+}
+
 // normalise rewrites fd in place.
 func (nz *decNormaliser) normalise(fd *ast.FuncDecl) {
 	if fd == nil || fd.Body == nil {
@@ -482,5 +630,20 @@ func (nz *decNormaliser) normalise(fd *ast.FuncDecl) {
 			break
 		}
 	}
+	nz.canonIf(fd.Body, true, false)
+	for i := 0; i < 4 && nz.dropElse(fd.Body); i++ {
+	}
+	nz.canonIf(fd.Body, false, true)
+	// N10: nothing follows a statement that always leaves
+	decRewriteLists(fd.Body, func(l []ast.Stmt) []ast.Stmt {
+		for i := range l {
+			if decTerminates(l[:i+1]) {
+				if _, isLabeled := l[i].(*ast.LabeledStmt); !isLabeled {
+					return l[:i+1]
+				}
+			}
+		}
+		return l
+	})
 	decStripParens(fd.Body)
 }
